@@ -133,9 +133,9 @@ Section J.
     | CRevX => (Xrotx O (vget t0 q 0), [ex O], svzero O)
     | CEulerZYX =>
         let q0 := vget t0 q 0 in let q1 := vget t0 q 1 in let q2 := vget t0 q 2 in
-        let '(E, Sl, cj) := euler_lit JEulerZYX (osin O q0) (ocos O q0) (osin O q1) (ocos O q1)
+        let el := euler_lit JEulerZYX (osin O q0) (ocos O q0) (osin O q1) (ocos O q1)
                               (osin O q2) (ocos O q2) (vget t0 qd 0) (vget t0 qd 1) (vget t0 qd 2) in
-        (mkST E (v3zero O), m63_sets (m63zero O) Sl, svof cj (v3zero O))
+        (mkST (fst (fst el)) (v3zero O), m63_sets (m63zero O) (snd (fst el)), svof (snd el) (v3zero O))
     | CRzTx =>   (* rotation about z by q0, then translation q1 along the rotated x axis *)
         (st_mul O (Xtrans O (mkV3 (vget t0 q 1) t0 t0)) (Xrotz O (vget t0 q 0)),
          [mkSV t0 t0 t1 t0 (vget t0 q 1) t0; tx O],
@@ -182,8 +182,9 @@ Section J.
         if full then w_vJ w2 (upd (wvJ w2) i (svof (v3of O qd3) (v3zero O))) else w2
     | JEulerZYX | JEulerXYZ | JEulerYXZ | JEulerZXY =>
         let q1 := vget t0 q (S qi) in let q2 := vget t0 q (S (S qi)) in
-        let '(E, Sl, cj) := euler_lit (jkind J) (osin O q0) (ocos O q0) (osin O q1) (ocos O q1)
+        let el := euler_lit (jkind J) (osin O q0) (ocos O q0) (osin O q1) (ocos O q1)
                                (osin O q2) (ocos O q2) (nth 0 qd3 t0) (nth 1 qd3 t0) (nth 2 qd3 t0) in
+        let E := fst (fst el) in let Sl := snd (fst el) in let cj := snd el in
         let w1 := w_Xl w (upd (wXl w) i (st_mul O (mkST E (v3zero O)) XT)) in
         let mS := m63_sets (gmS w1 i) Sl in
         let w2 := w_mS w1 (upd (wmS w1) i mS) in
@@ -201,7 +202,8 @@ Section J.
           w_Xl w2 (upd (wXl w2) i (st_mul O (mkST (m3id O) (mkV3 q0 q1 q2)) XT))
     | JCustom c =>
         let k := jcust J in
-        let '(XJ, Sc, cj) := custom_lit c (vslice t0 q qi (cdof c)) (vslice t0 qd qi (cdof c)) in
+        let cl := custom_lit c (vslice t0 q qi (cdof c)) (vslice t0 qd qi (cdof c)) in
+        let XJ := fst (fst cl) in let Sc := snd (fst cl) in let cj := snd cl in
         let w1 := w_cS (w_Xl w (upd (wXl w) i (st_mul O XJ XT))) (upd (wcS w) k Sc) in
         if full then
           w_cJ (w_vJ w1 (upd (wvJ w1) i (cols_mulv Sc (vslice t0 qd qi (cdof c))))) (upd (wcJ w1) i cj)
